@@ -1,8 +1,9 @@
 (* C04 - property theorems.  Nothing but statements, `exact <lemma>` and
    Print Assumptions.  Hypotheses: sizes >= 1 (what the library accepts),
    stored frames are the padded cuts of one matrix at grid positions. *)
-From Coq Require Import String ZArith List Bool.
-From HD Require Import Base.Val C12_Model C12_Proofs C04_Model C04_Proofs C04_Proofs_Store C04_Proofs_Geom.
+From Coq Require Import String ZArith List Bool Permutation Sorted.
+From HD Require Import Base.Val C12_Model C12_Proofs C04_Model C04_Proofs C04_Proofs_Store C04_Proofs_Geom
+                       C04_Proofs_Arr C04_Proofs_E2E C04_Proofs_Vol C04_Proofs_Order.
 Import ListNotations.
 Open Scope Z_scope.
 
@@ -14,18 +15,23 @@ Print Assumptions C04_slice_shapes_agree.
 
 (* standardize_rc_spec: the standardiser computes exactly the documented
    1-based / 0-based / negative conventions and refuses (ValueError) everything
-   else; only the one-based end 0 is passed on (as 0) ... *)
+   else - including, since fix D100, the one-based end 0 *)
 Theorem C04_standardize_rc_spec : forall ai rs re cs ce R C, 1 <= R -> 1 <= C ->
   standardize_rc ai rs re cs ce R C =
-  match spec_start ai R rs, spec_end_std ai R re, spec_start ai C cs, spec_end_std ai C ce with
+  match spec_start ai R rs, spec_end ai R re, spec_start ai C cs, spec_end ai C ce with
   | Some s, Some e, Some c0, Some c1 => Ok (s, e, c0, c1)
   | _, _, _, _ => Err "ValueError"
   end.
 Proof. exact standardize_rc_eq. Qed.
 Print Assumptions C04_standardize_rc_spec.
 
-(* ... and is refused by the read: a region read (no count check) returns the
-   region the conventions denote, and a ValueError in every other case *)
+Theorem C04_standardized_ends_in_matrix : forall ai n x e, 1 <= n ->
+  spec_end ai n x = Some e -> 1 <= e <= n + 1.
+Proof. exact spec_end_range. Qed.
+Print Assumptions C04_standardized_ends_in_matrix.
+
+(* a region read (no count check) returns the region the conventions denote
+   (start <= end on both axes), and a ValueError in every other case *)
 Theorem C04_read_accept_refuse : forall ts R C th tw ai rs re cs ce, 1 <= R -> 1 <= C ->
   read_std false ts R C th tw ai rs re cs ce =
   match spec_region ai R C rs re cs ce with
@@ -158,9 +164,7 @@ Theorem C04_seg_full_equals_sparse : forall ty mf omit planes R C th tw st,
   reimply_full (map fst planes) R C th tw st = st /\
   omit_eff omit planes R C th tw = false /\
   seg_store ty mf false false planes R C th tw = Ok st.
-Proof.
-  intros. split; [now apply (seg_full_equals_sparse ty mf omit)|now apply seg_full_is_unomitted].
-Qed.
+Proof. exact seg_full_equals_sparse_all. Qed.
 Print Assumptions C04_seg_full_equals_sparse.
 
 (* non-vacuity: a concrete unaligned region of a 5 x 3 matrix in 2 x 2 tiles *)
@@ -200,7 +204,7 @@ Print Assumptions C04_declared_is_mask_shape.
 Theorem C04_shape_guard_exact : forall o uo os um ms R C SR SC th tw sth stw,
   seg_declared (tpm_preserved o uo os um ms) R C SR SC th tw sth stw = Err "ValueError" <->
   ((o = true /\ (uo = true -> os = true) /\ (um = true -> ms = true)) /\ (R <> SR \/ C <> SC)).
-Proof. intros. rewrite seg_declared_refuses_iff, tpm_preserved_iff. reflexivity. Qed.
+Proof. exact shape_guard_exact. Qed.
 Print Assumptions C04_shape_guard_exact.
 
 (* geometry_construction: construction with an own geometry is the plain
@@ -243,3 +247,241 @@ Example C04_example_geom :
     (mkGeom 5 4 2 2 None None true false false true true) = Err "ValueError".
 Proof. vm_compute. repeat split; reflexivity. Qed.
 Print Assumptions C04_example_geom.
+
+(* ---- the frame loop as numpy array updates ---------------------------------------------- *)
+(* frame_loop_refines: np.zeros + one slice assignment per selected frame in ORDER BY
+   order is never refused (no shape mismatch, no broadcasting) and yields exactly the
+   cell-wise region of the theorems above - for every tile list, complete or not *)
+Theorem C04_frame_loop_refines : forall ts s e cs ce th tw,
+  0 <= e - s -> 0 <= ce - cs -> 1 <= th -> 1 <= tw ->
+  read_region_arr ts s e cs ce th tw = Ok (read_region ts s e cs ce th tw).
+Proof. exact read_region_arr_refines. Qed.
+Print Assumptions C04_frame_loop_refines.
+
+Theorem C04_image_read_arr_eq : forall full ts R C th tw ai rs re cs ce, 1 <= th -> 1 <= tw ->
+  img_read_arr full ts R C th tw ai rs re cs ce = img_read full ts R C th tw ai rs re cs ce.
+Proof. exact img_read_arr_eq. Qed.
+Print Assumptions C04_image_read_arr_eq.
+
+Theorem C04_unique_positions_iff_NoDup : forall ts, unique_positions ts = true <-> NoDup (positions ts).
+Proof. exact unique_positions_NoDup. Qed.
+Print Assumptions C04_unique_positions_iff_NoDup.
+
+(* the row order of the query result is irrelevant: for frames at distinct grid
+   positions, the array loop over ANY permutation of the selected frames yields the
+   region (so ORDER BY is no premise), and so does any stored frame order *)
+Theorem C04_array_loop_any_order : forall ts l s e cs ce th tw,
+  1 <= th -> 1 <= tw -> 0 <= e - s -> 0 <= ce - cs -> 1 <= s -> 1 <= cs ->
+  Permutation (filter (tile_selected s e cs ce th tw) ts) l ->
+  (forall t, In t ts -> on_grid th tw t) -> unique_positions ts = true ->
+  fold_left (fun acc t => bind acc (fun o => paste s e cs ce th tw o t)) l (Ok (zeros2 (e - s) (ce - cs))) =
+  Ok (read_region ts s e cs ce th tw).
+Proof. exact array_loop_any_order. Qed.
+Print Assumptions C04_array_loop_any_order.
+
+Theorem C04_region_order_irrelevant : forall ts l s e cs ce th tw, 1 <= th -> 1 <= tw ->
+  Permutation ts l -> (forall t, In t ts -> on_grid th tw t) -> unique_positions ts = true ->
+  1 <= s -> 1 <= cs ->
+  region_in_order l s e cs ce th tw = read_region ts s e cs ce th tw.
+Proof. exact region_order_irrelevant. Qed.
+Print Assumptions C04_region_order_irrelevant.
+
+Theorem C04_read_region_perm : forall ts ts' s e cs ce th tw, 1 <= th -> 1 <= tw ->
+  Permutation ts ts' -> (forall t, In t ts -> on_grid th tw t) -> unique_positions ts = true ->
+  1 <= s -> 1 <= cs ->
+  read_region ts' s e cs ce th tw = read_region ts s e cs ce th tw.
+Proof. exact read_region_perm. Qed.
+Print Assumptions C04_read_region_perm.
+
+(* the model's ORDER BY RowPosition, ColumnPosition does sort *)
+Theorem C04_sort_tiles_sorted : forall l, StronglySorted tile_le (sort_tiles l).
+Proof. exact sort_tiles_sorted. Qed.
+Print Assumptions C04_sort_tiles_sorted.
+
+(* ---- end to end: READ (TILE M) region = M[region] ----------------------------------------- *)
+(* TILED_FULL image of M (positions implied by frame order): every call of
+   get_total_pixel_matrix returns the numpy slice M[s-1:e-1, c0-1:c1-1] the argument
+   conventions denote, as a whole array, and ValueError for arguments denoting no region *)
+Theorem C04_image_full_end_to_end : forall M R C th tw ai rs re cs ce,
+  wf_matrix M R C -> 1 <= R -> 1 <= C -> 1 <= th -> 1 <= tw ->
+  img_read true (tiles_full M R C th tw) R C th tw ai rs re cs ce =
+  match spec_region ai R C rs re cs ce with
+  | Some (s, e, c0, c1) => Ok (submatrix M (s - 1) (e - 1) (c0 - 1) (c1 - 1))
+  | None => Err "ValueError"
+  end.
+Proof. exact image_full_end_to_end. Qed.
+Print Assumptions C04_image_full_end_to_end.
+
+(* TILED_SPARSE image: explicit positions, frames in any order, any subset of the grid *)
+Theorem C04_image_sparse_end_to_end : forall M R C th tw ts ai rs re cs ce,
+  wf_matrix M R C -> 1 <= R -> 1 <= C -> 1 <= th -> 1 <= tw ->
+  unique_positions ts = true -> (forall t, In t ts -> cut_of M R C th tw t) ->
+  match spec_region ai R C rs re cs ce with
+  | Some (s, e, c0, c1) =>
+      (img_read false ts R C th tw ai rs re cs ce = Ok (submatrix M (s - 1) (e - 1) (c0 - 1) (c1 - 1)) /\
+       forall p, In p (grid R C th tw) -> sel_pos s e c0 c1 th tw p = true -> In p (positions ts)) \/
+      (img_read false ts R C th tw ai rs re cs ce = Err "RuntimeError" /\
+       exists p, In p (grid R C th tw) /\ sel_pos s e c0 c1 th tw p = true /\ ~ In p (positions ts))
+  | None => img_read false ts R C th tw ai rs re cs ce = Err "ValueError" \/
+            img_read false ts R C th tw ai rs re cs ce = Err "RuntimeError"
+  end.
+Proof. exact image_sparse_end_to_end. Qed.
+Print Assumptions C04_image_sparse_end_to_end.
+
+(* a mask tiled by the library reads back, for every list of requested segments,
+   as the list of numpy slices of the planes that were passed *)
+Theorem C04_seg_end_to_end : forall ty mf full omit planes R C th tw st sel ai rs re cs ce,
+  1 <= R -> 1 <= C -> 1 <= th -> 1 <= tw ->
+  NoDup (map fst planes) -> (forall k Mk, In (k, Mk) planes -> wf_matrix Mk R C) ->
+  stored ty mf full omit planes (map fst planes) R C th tw = Ok st ->
+  (forall k, In k sel -> In k (map fst planes)) ->
+  seg_read st sel R C th tw ai rs re cs ce =
+  match spec_region ai R C rs re cs ce with
+  | Some (s, e, c0, c1) =>
+      Ok (map (fun k => scale_tile (factor ty mf) (submatrix (plane_of k planes) (s - 1) (e - 1) (c0 - 1) (c1 - 1))) sel)
+  | None => match sel with [] => Ok [] | _ => Err "ValueError" end
+  end.
+Proof. exact seg_end_to_end. Qed.
+Print Assumptions C04_seg_end_to_end.
+
+Theorem C04_geometry_end_to_end : forall ty mf full omit planes R C g th tw RD CD st sel ai rs re cs ce,
+  1 <= R -> 1 <= C -> 1 <= th -> 1 <= tw ->
+  NoDup (map fst planes) -> (forall k Mk, In (k, Mk) planes -> wf_matrix Mk R C) ->
+  stored_geom ty mf full omit planes (map fst planes) R C g = Ok (th, tw, RD, CD, st) ->
+  (forall k, In k sel -> In k (map fst planes)) ->
+  seg_read st sel RD CD th tw ai rs re cs ce =
+  match spec_region ai R C rs re cs ce with
+  | Some (s, e, c0, c1) =>
+      Ok (map (fun k => scale_tile (factor ty mf) (submatrix (plane_of k planes) (s - 1) (e - 1) (c0 - 1) (c1 - 1))) sel)
+  | None => match sel with [] => Ok [] | _ => Err "ValueError" end
+  end.
+Proof. exact geom_end_to_end. Qed.
+Print Assumptions C04_geometry_end_to_end.
+
+(* LABELMAP: combined (unrequested labels -> 0), one binary plane per requested
+   segment, and relabelled (requested label -> its 1-based position in the request) *)
+Theorem C04_seg_labelmap_end_to_end : forall mf full omit L R C th tw st sel ai rs re cs ce,
+  1 <= R -> 1 <= C -> 1 <= th -> 1 <= tw -> wf_matrix L R C ->
+  stored Labelmap mf full omit [(0, L)] [0] R C th tw = Ok st ->
+  seg_read_labelmap st sel R C th tw ai rs re cs ce =
+  match spec_region ai R C rs re cs ce with
+  | Some (s, e, c0, c1) =>
+      Ok (map (map (fun v => if existsb (Z.eqb v) sel then v else 0)) (submatrix L (s - 1) (e - 1) (c0 - 1) (c1 - 1)))
+  | None => Err "ValueError"
+  end.
+Proof. exact seg_labelmap_end_to_end. Qed.
+Print Assumptions C04_seg_labelmap_end_to_end.
+
+Theorem C04_seg_labelmap_planes_end_to_end : forall mf full omit L R C th tw st sel ai rs re cs ce,
+  1 <= R -> 1 <= C -> 1 <= th -> 1 <= tw -> wf_matrix L R C ->
+  stored Labelmap mf full omit [(0, L)] [0] R C th tw = Ok st ->
+  seg_read_labelmap_planes st sel R C th tw ai rs re cs ce =
+  match spec_region ai R C rs re cs ce with
+  | Some (s, e, c0, c1) =>
+      Ok (map (fun k => map (map (fun v => if v =? k then 1 else 0)) (submatrix L (s - 1) (e - 1) (c0 - 1) (c1 - 1))) sel)
+  | None => Err "ValueError"
+  end.
+Proof. exact seg_labelmap_planes_end_to_end. Qed.
+Print Assumptions C04_seg_labelmap_planes_end_to_end.
+
+Theorem C04_seg_labelmap_relabel_end_to_end : forall mf full omit L R C th tw st sel ai rs re cs ce,
+  1 <= R -> 1 <= C -> 1 <= th -> 1 <= tw -> wf_matrix L R C ->
+  stored Labelmap mf full omit [(0, L)] [0] R C th tw = Ok st ->
+  seg_read_labelmap_relabel st sel R C th tw ai rs re cs ce =
+  match spec_region ai R C rs re cs ce with
+  | Some (s, e, c0, c1) => Ok (map (map (fun v => index1 v sel)) (submatrix L (s - 1) (e - 1) (c0 - 1) (c1 - 1)))
+  | None => Err "ValueError"
+  end.
+Proof. exact seg_labelmap_relabel_end_to_end. Qed.
+Print Assumptions C04_seg_labelmap_relabel_end_to_end.
+
+Theorem C04_relabel_index_spec : forall v sel,
+  (index1 v sel = 0 /\ ~ In v sel) \/
+  (1 <= index1 v sel <= Z.of_nat (length sel) /\ nth (Z.to_nat (index1 v sel - 1)) sel 0 = v /\
+   forall m, (m < Z.to_nat (index1 v sel - 1))%nat -> nth m sel 0 <> v).
+Proof. exact index1_spec. Qed.
+Print Assumptions C04_relabel_index_spec.
+
+(* ---- the region read of get_volume on a tiled image ------------------------------------------ *)
+(* the second standardisation (as_indices=True on the zero-based output of the first)
+   returns what the first one computed *)
+Theorem C04_restandardize : forall ai rs re cs ce R C, 1 <= R -> 1 <= C ->
+  bind (standardize_rc_out ai true rs re cs ce R C) (fun t =>
+    match t with (a, b, c, d) => standardize_rc true (Some a) (Some b) (Some c) (Some d) R C end) =
+  standardize_rc ai rs re cs ce R C.
+Proof. exact restandardize. Qed.
+Print Assumptions C04_restandardize.
+
+(* volume_region_exact: Image.get_volume on a tiled image refuses what the standardiser
+   refuses (first) and otherwise is get_total_pixel_matrix on the same arguments *)
+Theorem C04_volume_region_exact : forall full ts R C th tw ai rs re cs ce, 1 <= R -> 1 <= C ->
+  img_vol_read full ts R C th tw ai rs re cs ce =
+  match standardize_rc ai rs re cs ce R C with
+  | Err k => Err k
+  | Ok _ => img_read full ts R C th tw ai rs re cs ce
+  end.
+Proof. exact img_vol_read_exact. Qed.
+Print Assumptions C04_volume_region_exact.
+
+(* volume_region_agrees (FULL; was _partial + _refuted before fix D100): on every image
+   with unique frame positions get_volume reads exactly what get_total_pixel_matrix
+   reads, for every argument in every convention *)
+Theorem C04_volume_region_agrees : forall full ts R C th tw ai rs re cs ce, 1 <= R -> 1 <= C ->
+  unique_positions ts = true ->
+  img_vol_read full ts R C th tw ai rs re cs ce = img_read full ts R C th tw ai rs re cs ce.
+Proof. exact img_vol_agrees. Qed.
+Print Assumptions C04_volume_region_agrees.
+
+Theorem C04_volume_refuses_duplicates : forall full ts R C th tw ai rs re cs ce, 1 <= R -> 1 <= C ->
+  unique_positions ts = false ->
+  img_read full ts R C th tw ai rs re cs ce = Err "RuntimeError" /\
+  (img_vol_read full ts R C th tw ai rs re cs ce = Err "RuntimeError" \/
+   img_vol_read full ts R C th tw ai rs re cs ce = Err "ValueError").
+Proof. exact img_vol_refuses_duplicates. Qed.
+Print Assumptions C04_volume_refuses_duplicates.
+
+(* regression statement of D100: the one-based end 0 is refused on either axis, by both entry points *)
+Theorem C04_end_zero_refused : forall full ts R C th tw rs cs ce, 1 <= R -> 1 <= C ->
+  img_vol_read full ts R C th tw false rs (Some 0) cs ce = Err "ValueError" /\
+  img_vol_read full ts R C th tw false cs ce rs (Some 0) = Err "ValueError" /\
+  read_std false ts R C th tw false rs (Some 0) cs ce = Err "ValueError".
+Proof. exact end_zero_refused. Qed.
+Print Assumptions C04_end_zero_refused.
+
+Theorem C04_seg_volume_region_exact : forall st sel R C th tw ai rs re cs ce, 1 <= R -> 1 <= C ->
+  vol_region ai rs re cs ce R C (seg_read st sel R C th tw) =
+  match standardize_rc ai rs re cs ce R C with
+  | Err k => Err k
+  | Ok _ => seg_read st sel R C th tw ai rs re cs ce
+  end.
+Proof. exact seg_vol_read_exact. Qed.
+Print Assumptions C04_seg_volume_region_exact.
+
+Theorem C04_seg_volume_region_agrees : forall st sel R C th tw ai rs re cs ce, 1 <= R -> 1 <= C -> sel <> [] ->
+  vol_region ai rs re cs ce R C (seg_read st sel R C th tw) = seg_read st sel R C th tw ai rs re cs ce.
+Proof. exact seg_vol_agrees. Qed.
+Print Assumptions C04_seg_volume_region_agrees.
+
+(* non-vacuity of the end-to-end statements: a 5 x 3 matrix in 2 x 2 tiles,
+   an unaligned region in the negative / None convention; the same matrix as a
+   FRACTIONAL plane with omission; the array loop on an incomplete image *)
+Example C04_example_end_to_end :
+  let M := [[1;2;3];[4;5;6];[7;8;9];[10;11;12];[13;14;15]] in
+  wf_matrix M 5 3 /\
+  spec_region false 5 3 (Some 2) (Some (-1)) (Some (-2)) None = Some (2, 5, 2, 4) /\
+  submatrix M 1 4 1 3 = [[5;6];[8;9];[11;12]] /\
+  img_read true (tiles_full M 5 3 2 2) 5 3 2 2 false (Some 2) (Some (-1)) (Some (-2)) None = Ok [[5;6];[8;9];[11;12]] /\
+  img_read_arr true (tiles_full M 5 3 2 2) 5 3 2 2 false (Some 2) (Some (-1)) (Some (-2)) None = Ok [[5;6];[8;9];[11;12]] /\
+  img_read_arr false (rev (tl (tiles_full M 5 3 2 2))) 5 3 2 2 true (Some 2) None None None = Ok [[7;8;9];[10;11;12];[13;14;15]] /\
+  img_read_arr false (rev (tl (tiles_full M 5 3 2 2))) 5 3 2 2 true (Some 1) None None None = Err "RuntimeError" /\
+  img_vol_read true (tiles_full M 5 3 2 2) 5 3 2 2 false (Some 2) (Some (-1)) (Some (-2)) None = Ok [[5;6];[8;9];[11;12]] /\
+  img_vol_read true (tiles_full M 5 3 2 2) 5 3 2 2 false (Some 2) (Some 0) None None = Err "ValueError" /\
+  let P := [[0;0;0];[0;0;0];[0;0;0];[0;0;0];[0;0;1]] in
+  match stored Fractional 255 false true [(1, P); (2, M)] [1; 2] 5 3 2 2 with
+  | Ok st => length st = 7%nat /\
+             seg_read st [2; 1] 5 3 2 2 true (Some 3) None (Some 1) None =
+               Ok [scale_tile 255 [[11;12];[14;15]]; [[0;0];[0;255]]]
+  | Err _ => False
+  end.
+Proof. vm_compute. repeat split; try reflexivity; intros row [<-|[<-|[<-|[<-|[<-|[]]]]]]; reflexivity. Qed.
+Print Assumptions C04_example_end_to_end.
